@@ -64,3 +64,47 @@ package protocol
 //@   ensures err == nil ==> ss.protocol == b[0] && ss.timestamp == be32(b, 2) && ss.sessionID == be32(b, 6) && ss.seq == be32(b, 10)
 //@   ensures err == nil ==> ss.statusCode == b[14] && ss.payloadLen == be16(b, 15) && ss.suffixLen == b[17]
 //@   ensures err != nil ==> ss.protocol == old(ss.protocol) && ss.sessionID == old(ss.sessionID) && ss.seq == old(ss.seq) && ss.payloadLen == old(ss.payloadLen)
+//@
+//@ func isValidLowEntropyRotation(rotation appctlpb.LowEntropyMaskRotation) (r bool)
+//@   property C17 C09
+//@   ensures r <==> (0 <= rotation && rotation <= 15) || (16 <= rotation && rotation <= 240 && rotation % 16 == 0)
+//@
+//@ func validateLowEntropyCodecParams(mode appctlpb.LowEntropyMode, halfMask uint32, rotation appctlpb.LowEntropyMaskRotation) (p lowEntropyModeParams, err error)
+//@   property C17 C09
+//@   ensures (err == nil) <==> (1 <= mode && mode <= 4 && popcount32(halfMask) == 4 * (int(mode) + 3) && ((0 <= rotation && rotation <= 15) || (16 <= rotation && rotation <= 240 && rotation % 16 == 0)))
+//@   ensures err == nil ==> p.sourceBytesPerChunk == int(mode) + 3 && p.halfMaskOnes == 4 * (int(mode) + 3)
+//@
+//@ func validateLowEntropyDataAckMetadata(das *dataAckStruct) (err error)
+//@   property C17 C09 C10
+//@   mode int
+//@   requires das != nil
+//@   ensures (err == nil) <==> ((das.protocol == 10 || das.protocol == 11) && 1 <= das.lowEntropyMode && das.lowEntropyMode <= 4 && popcount32(das.lowEntropyMask) == 4 * (int(das.lowEntropyMode) + 3) && leRotOK(das.lowEntropyMaskRotation) && int(das.extractedPayloadLen) <= 32768 && int(das.payloadLen) == ite(das.extractedPayloadLen == 0, 0, leEncLen(int(das.extractedPayloadLen), das.lowEntropyMode)))
+//@
+//@ func (das *dataAckStruct) Marshal() (b []byte)
+//@   property C09 C08
+//@   mode int
+//@   requires das != nil
+//@   modifies das.timestamp
+//@   ensures len(b) == 32 && fresh(b)
+//@   ensures b[0] == das.protocol
+//@   ensures be32(b, 2) == das.timestamp && mathint(das.timestamp) == nowMinute()
+//@   ensures be32(b, 6) == das.sessionID && be32(b, 10) == das.seq && be32(b, 14) == das.unAckSeq && be16(b, 18) == das.windowSize
+//@   ensures b[20] == das.fragment && b[21] == das.prefixLen && be16(b, 22) == das.payloadLen && b[24] == das.suffixLen
+//@   ensures (das.protocol == 10 || das.protocol == 11) ==> b[1] == das.lowEntropyMode && be32(b, 25) == das.lowEntropyMask && be16(b, 29) == das.extractedPayloadLen && b[31] == das.lowEntropyMaskRotation
+//@   ensures !(das.protocol == 10 || das.protocol == 11) ==> b[1] == 0 && forall(k, 25, 32, b[k] == 0)
+//@
+//@ func (das *dataAckStruct) Unmarshal(b []byte) (err error)
+//@   property C08 C09 C10
+//@   mode int
+//@   requires das != nil
+//@   modifies das.*
+//@   ensures err == nil ==> len(b) == 32 && 6 <= b[0] && b[0] <= 11
+//@   ensures err == nil ==> mathint(be32(b, 2)) - 1 <= nowMinute() && nowMinute() <= mathint(be32(b, 2)) + 1
+//@   ensures err == nil && (b[0] == 10 || b[0] == 11) ==> 1 <= b[1] && b[1] <= 4 && popcount32(be32(b, 25)) == 4 * (int(b[1]) + 3) && leRotOK(b[31]) && int(be16(b, 29)) <= 32768 && int(be16(b, 22)) == ite(be16(b, 29) == 0, 0, leEncLen(int(be16(b, 29)), b[1]))
+//@   ensures len(b) == 32 && 6 <= b[0] && b[0] <= 9 && mathint(be32(b, 2)) - 1 <= nowMinute() && nowMinute() <= mathint(be32(b, 2)) + 1 ==> err == nil
+//@   ensures len(b) == 32 && (b[0] == 10 || b[0] == 11) && mathint(be32(b, 2)) - 1 <= nowMinute() && nowMinute() <= mathint(be32(b, 2)) + 1 && 1 <= b[1] && b[1] <= 4 && popcount32(be32(b, 25)) == 4 * (int(b[1]) + 3) && leRotOK(b[31]) && int(be16(b, 29)) <= 32768 && int(be16(b, 22)) == ite(be16(b, 29) == 0, 0, leEncLen(int(be16(b, 29)), b[1])) ==> err == nil
+//@   ensures err == nil ==> das.protocol == b[0] && das.timestamp == be32(b, 2) && das.sessionID == be32(b, 6) && das.seq == be32(b, 10) && das.unAckSeq == be32(b, 14) && das.windowSize == be16(b, 18)
+//@   ensures err == nil ==> das.fragment == b[20] && das.prefixLen == b[21] && das.payloadLen == be16(b, 22) && das.suffixLen == b[24]
+//@   ensures err == nil && (b[0] == 10 || b[0] == 11) ==> das.lowEntropyMode == b[1] && das.lowEntropyMask == be32(b, 25) && das.extractedPayloadLen == be16(b, 29) && das.lowEntropyMaskRotation == b[31]
+//@   ensures err == nil && !(b[0] == 10 || b[0] == 11) ==> das.lowEntropyMode == 0 && das.lowEntropyMask == 0 && das.extractedPayloadLen == 0 && das.lowEntropyMaskRotation == 0
+//@   ensures err != nil ==> das.protocol == old(das.protocol) && das.sessionID == old(das.sessionID) && das.seq == old(das.seq) && das.payloadLen == old(das.payloadLen)
